@@ -83,6 +83,15 @@ def make_cases(ctx):
             for g in groups:
                 yield "dnoext-%d-%s-%s" % (cver[1], kx, g), {
                     "dnoext": [cver, kx, kind_, g]}
+    # finite-field parameters of the server's own (no RFC 7919 group in
+    # common) whose prime is not a whole number of bytes long, against the
+    # client's key size bounds one bit either side of it
+    for cver in ((3, 1), (3, 3)):
+        for kx, kind_ in (("dhe_rsa", "cert"), ("dh_anon", "anon")):
+            for lo, hi in ((1031, 8193), (1032, 8193), (1023, 1031),
+                           (1023, 1030)):
+                yield "ddh-%d-%s-%d-%d" % (cver[1], kx, lo, hi), {
+                    "ddh": [cver, kx, kind_, lo, hi]}
     # the same negotiation started through the integration helper that the
     # stdlib-client wrappers (HTTP, SMTP, POP3, IMAP, XML-RPC) share
     for flav in ("cert", "srp", "anon", "cert_clientauth"):
@@ -367,6 +376,13 @@ SNI_SHAPES = ["server.example.", "localhost", "1host.example",
               "0.0.0.a"]
 
 
+PRIME_1031 = int(
+    "6f19c042d42f28622111c312ad0a203d3143a5c297661361088b945dd68d79c41c4723de"
+    "8715154fb9d4f5b1d1a6fc89b2fb2e0005ffecb060c8f9933b7bb88f80e6dbd4cc8a1ff6"
+    "e27ce82577c9642ae11b240b1d59f2beb59b85d0d4c553557d25c86239ea1e5a51a6cb27"
+    "9c18122cc0cf021a5e11ec21e56086d7cb32fcf5c3", 16)      # 1031 bits
+
+
 def draw(rng):
     """random pair of settings and flavour"""
     p_keep = rng.choice([0.3, 0.5, 0.7, 0.85])
@@ -453,6 +469,20 @@ def run_case(ctx, cid, P):
         alpn_c = alpn_s = npn_c = npn_s = sni = None
         resume, cache = False, None
         ctx.count("directed_signature_policies")
+    elif "ddh" in P:
+        cver, kx, kind, lo, hi = P["ddh"]
+        cver = tuple(cver)
+        cd = {"minVersion": cver, "maxVersion": cver,
+              "keyExchangeNames": [kx], "dhGroups": [], "minKeySize": lo,
+              "maxKeySize": hi}
+        sd = {"minVersion": cver, "maxVersion": cver,
+              "keyExchangeNames": [kx], "dhParams": (2, PRIME_1031)}
+        cs, ss = policy.build(cd), policy.build(sd)
+        skey = "rsa" if kind == "cert" else None
+        ckey, req_cert = None, False
+        alpn_c = alpn_s = npn_c = npn_s = sni = None
+        resume, cache = False, None
+        ctx.count("directed_odd_dh_prime")
     elif "dnoext" in P:
         cver, kx, kind, g = P["dnoext"]
         cver = tuple(cver)
